@@ -60,7 +60,7 @@ static void *ent_fn(int e) {
 
 static const char *LITS[] = {"", "ab", " ", "x", ": ", "12", "%%", "a%%b"};
 #define NLITS 8
-static const char *LENS[] = {"", "hh", "h", "l", "ll", "j", "z", "t", "L"};
+static const char *LENS[] = {"", "hh", "h", "l", "ll", "j", "z", "t", "L", "Z", "q"};
 
 void fmt_render(const fcase_t *c, char *out, size_t n) {
     size_t k = 0;
@@ -105,7 +105,7 @@ void fmt_render(const fcase_t *c, char *out, size_t n) {
         }
         if (d->conv == 'C') EMIT("lc");
         else if (d->conv == 'S') EMIT("ls");
-        else EMIT("%s%c", LENS[d->len % 9], d->conv);
+        else EMIT("%s%c", LENS[d->len % LEN_COUNT], d->conv);
     }
     EMIT("%s", LITS[c->tail_lit % NLITS]);
 #undef EMIT
@@ -236,8 +236,8 @@ void fmt_run(const fcase_t *c, fres_t *x, int want_ref, int guard) {
         case 'd': case 'i': case 'u': case 'x': case 'X': case 'o': {
             long long v = IVALS[d->vsel % NIV];
             switch (d->len) {
-            case LEN_L: case LEN_Z: case LEN_T: case LEN_J: PUSH(ffi_type_slong, l, (long)v); break;
-            case LEN_LL: case LEN_BIGL: PUSH(ffi_type_sint64, ll, v); break;
+            case LEN_L: case LEN_Z: case LEN_T: case LEN_J: case LEN_BIGZ: PUSH(ffi_type_slong, l, (long)v); break;
+            case LEN_LL: case LEN_BIGL: case LEN_Q: PUSH(ffi_type_sint64, ll, v); break;
             default: PUSH(ffi_type_sint, i, (int)v); break;
             }
             break;
@@ -418,6 +418,7 @@ void fmt_gen_dir(cs_t *cs, fdir_t *d, int kind, int allow_n, int floats, int wid
         else if (allow_n && k < 10) d->conv = 'N';
         else d->conv = (uint8_t)iconv[cs_range(cs, 0, 5)];
         d->len = (uint8_t)cs_range(cs, 0, 7);
+        if (d->conv == 'n' && cs_range(cs, 0, 7) == 0) d->len = (uint8_t)(cs_range(cs, 0, 1) ? LEN_BIGZ : LEN_Q);
         if (cs_range(cs, 0, 3) == 0) d->width = (int16_t)cs_range(cs, 1, 5);
         if (d->conv != 'n' && d->conv != '%' && d->conv != 'N' && cs_range(cs, 0, 7) == 0) d->suppress = 1;
         if (d->conv == 'n' || d->conv == 'N') d->esc = (uint8_t)cs_range(cs, 0, 2);
@@ -449,7 +450,7 @@ void fmt_gen_dir(cs_t *cs, fdir_t *d, int kind, int allow_n, int floats, int wid
         else if (w < 8) d->prec = (int16_t)cs_range(cs, 100, 260);
         else { d->prec = -2; d->pstar = (int16_t)cs_range(cs, -3, 40); }
     }
-    if (strchr("diuxXon", d->conv)) { d->len = (uint8_t)cs_range(cs, 0, 7); if (cs_range(cs, 0, 15) == 0) d->len = LEN_BIGL; /* "%Ld": invalid in ISO C, a glibc synonym of ll; the library rejects it */ }
+    if (strchr("diuxXon", d->conv)) { d->len = (uint8_t)cs_range(cs, 0, 7); { long q = cs_range(cs, 0, 15); if (q == 0) d->len = LEN_BIGL; /* "%Ld": invalid in ISO C, a glibc synonym of ll; the library rejects it */ else if (q == 1) d->len = LEN_BIGZ; else if (q == 2) d->len = LEN_Q; /* two more length modifiers glibc accepts */ } }
     else if (strchr("fFeEgG", d->conv)) d->len = cs_range(cs, 0, 3) == 0 ? LEN_BIGL : LEN_NONE;
     if (d->conv == 'c' || d->conv == 'C') { d->prec = -1; d->flags &= 1; }
     if (allow_n && d->conv == 'n' && cs_range(cs, 0, 7) == 0) d->flags |= cs_range(cs, 0, 1) ? 32 : 64;
